@@ -279,6 +279,31 @@ pub fn ipv4_raw(
     h
 }
 
+/// The same Ethernet / IPv4 frame with `options` (a multiple of 4 bytes, at most 40) inserted behind
+/// the fixed IPv4 header: IHL, total length and header checksum adjusted, everything else as is.
+pub fn with_ipv4_options(frame: &[u8], options: &[u8]) -> Option<Vec<u8>> {
+    if frame.len() < 34 || frame[12] != 0x08 || frame[13] != 0x00 || frame[14] != 0x45 || options.len() % 4 != 0 || options.len() > 40 {
+        return None;
+    }
+    let mut v = frame[..34].to_vec();
+    v[14] = 0x40 | (5 + options.len() / 4) as u8;
+    let tl = u16::from_be_bytes([v[16], v[17]]).checked_add(options.len() as u16)?;
+    v[16..18].copy_from_slice(&tl.to_be_bytes());
+    v[24] = 0;
+    v[25] = 0;
+    v.extend_from_slice(options);
+    let c = inet_csum(&[&v[14..]]);
+    v[24..26].copy_from_slice(&c.to_be_bytes());
+    v.extend_from_slice(&frame[34..]);
+    Some(v)
+}
+
+/// well-formed IPv4 option areas: NOP padding of 4 / 8 / 40 bytes, router alert, timestamp, record
+/// route, end-of-list padding
+pub fn ipv4_option_sets() -> Vec<Vec<u8>> {
+    vec![vec![1; 4], vec![1; 8], vec![1; 40], vec![0x94, 4, 0, 0], vec![0x44, 12, 5, 0, 0, 0, 0, 0, 0, 0, 0, 0], vec![7, 7, 4, 0, 0, 0, 0, 0], vec![0; 4], vec![1, 1, 1, 0]]
+}
+
 pub fn ipv4(src: [u8; 4], dst: [u8; 4], proto: u8, payload: &[u8]) -> Vec<u8> {
     ipv4_raw(src, dst, proto, payload, 5, None, &[], 64, 0x4000, 0x1234)
 }
